@@ -527,7 +527,8 @@ fn verdict_position() -> BoxedStrategy<String> {
         gen::build(&r).fen()
     };
     prop_oneof![
-        5 => gen::cage_theme().prop_map(low_clock),
+        3 => gen::terminal_biased(),
+        4 => gen::cage_theme().prop_map(low_clock),
         4 => gen::pin_check_theme().prop_map(low_clock),
         2 => gen::ep_theme().prop_map(low_clock),
         2 => gen::promo_theme().prop_map(low_clock),
@@ -982,6 +983,7 @@ impl Prop for C18Positions {
                 5 => gen::material_extreme().prop_map(move |r| strip(gen::build(&r))),
                 3 => gen::placement(28).prop_map(move |r| strip(gen::build(&r))),
                 2 => gen::cage_theme().prop_map(move |r| strip(gen::build(&r))),
+                2 => gen::terminal_biased(),
                 2 => gen::endgame(5).prop_map(move |r| strip(gen::build(&r))),
                 1 => gen::ep_theme().prop_map(move |r| strip(gen::build(&r))),
                 3 => gen::walk(80).prop_map(move |w| strip(gen::walk_end(&w))),
